@@ -235,6 +235,14 @@ class C04(Check):
                     cands.append((a[:i] + a[i + 1:], e))
                 if i < len(e):
                     cands.append((a, e[:i] + e[i + 1:]))
+            # two aligned pairs at once (a permuted couple goes only together)
+            n = min(len(a), len(e))
+            for i in range(n):
+                for j in range(i + 1, n):
+                    cands.append(([s for k, s in enumerate(a)
+                                   if k not in (i, j)],
+                                  [s for k, s in enumerate(e)
+                                   if k not in (i, j)]))
             # simplify a line: take its outer blanks away
             for i, s in enumerate(a):
                 if s != s.strip():
